@@ -206,7 +206,12 @@ fn gen_file(t: &mut Tape) -> (String, Vec<Container>) {
                 // nested struct(s)
                 if t.chance(100) {
                     let sl = line;
-                    text.push_str(&format!("struct N{c} {{\n"));
+                    // the same struct name may occur in several contracts (A.Order, B.Order)
+                    if t.chance(128) {
+                        text.push_str("struct Order {\n");
+                    } else {
+                        text.push_str(&format!("struct N{c} {{\n"));
+                    }
                     line += 1;
                     let ss = members(t, &mut text, &mut line, &mut id, 8);
                     text.push_str("}\n");
